@@ -12,7 +12,14 @@ type Result[T any] struct {
 
 // IsOk returns true if the result is not an error.
 func (r Result[T]) IsOk() bool {
-	return r.Error == nil || reflect.ValueOf(r.Error).IsNil()
+	if r.Error == nil {
+		return true
+	}
+	switch v := reflect.ValueOf(r.Error); v.Kind() {
+	case reflect.Chan, reflect.Func, reflect.Interface, reflect.Map, reflect.Ptr, reflect.Slice, reflect.UnsafePointer:
+		return v.IsNil()
+	}
+	return false
 }
 
 // IsErr returns true if the result is an error.
